@@ -97,3 +97,13 @@ C("C07", "exploration",
   "Angle ladders: on-cone peak maximal and non-increasing on both sides; EM on-cone peak/E constant over 1e5..1e11 GeV.",
   "monotone-amplitude claim only on the declared ladder with dt<=2^-34 s, E>=1e9 GeV; tolerance 1e-10 of the peak (FFT convolution noise)",
   "DESIGN.md §4 C07")
+C("C13", "exploration",
+  "exhaustive lattices over the owned random draws (bijection onto equal-measure cells), exit-point lattice against an independent interval-arithmetic intersection, deviation-bounded choice tree over every draw of create_event, BFS over ListGenerator histories",
+  "Vertices: the K^3 midpoint lattice of the three draws maps one-to-one onto the K^3 equal-volume cells of the cylinder and of the box (K=16/48); "
+  "directions onto equal-solid-angle cells; flavour/antiparticle = threshold function of the two draws incl. points 2^-30 either side of every "
+  "configured threshold. Exit points for 2 cylinders and 2 boxes x interior/face/corner vertices x 30 directions against slab/quadratic interval "
+  "intersection plus the stated relations. create_event end to end for shape x shadow x interaction model x energy (constant/callable) x flavour "
+  "ratio x source with every draw a choice point (menu incl. 0.0), deviation bound 1/2: geometry follows from the draws, survival weight = "
+  "exp(-X/L) with X from the exact chord integral (C15 bound), interaction weight formula from independent chords, shadow acceptance and every "
+  "rejected throw re-derived, count = throws. ListGenerator: BFS over create/set-count histories, loop on/off. Open findings K7, K8.",
+  "distributional claims as exact statements about the map from uniform variates; secondaries off in the event tree", "DESIGN.md §4 C13")
